@@ -106,6 +106,9 @@ protected:
 
     void addSelectSymbolToFrame(const std::string& name, frame_t&, position_t pos);
 
+    /** Pops the frames above the given one (left open by a block that ended in a syntax error). */
+    void unwindFrames(const frame_t& frame);
+
 public:
     DocumentBuilder(Document&, std::vector<std::filesystem::path> paths = {});
 
